@@ -311,15 +311,10 @@ class Sim:
             return out
         self._post_checks(op, out, pre, post)
         self._log(op, out, post, pre)
-        if self.step_no % 25 == 24:
-            import gc
+        if self.io is not None and self.step_no % 25 == 24:
+            from .seams import quiesce_io
 
-            if self.io is None:
-                gc.collect()
-            else:
-                from .seams import quiesce_io
-
-                quiesce_io()
+            quiesce_io()
         return out
 
     def _log(self, op, out, post, pre):
